@@ -186,6 +186,9 @@ fn main() {
     let threads = if shard.is_some() { 1 } else if procs > 1 { 1 } else { threads };
     let ctx = Ctx { tier, seed, threads, procs, variant: variant.clone(), shard };
 
+    if tier == Tier::Tiny {
+        props::diag::assume_instead_of_probing();
+    }
     match args[1].as_str() {
         "run" => {
             let prop = args.get(2).expect("property id").clone();
